@@ -78,6 +78,14 @@ def _template(ctx, cfg):
         tags.append((DT['HASH'], addr(hashoff)))
     if gnuoff is not None:
         tags.append((DT['GNU_HASH'], addr(gnuoff)))
+    other = None
+    if cfg.get('both_flavours'):
+        # a second table of the OTHER flavour (the gABI permits both in one object): one entry
+        oname = 'REL' if rela else 'RELA'
+        osz = L.sizeof(oname, cls)
+        other = [dict(r_offset=ctx.uint('orel.off', A), r_info=ctx.uint('orel.info', A), r_addend=ctx.sint('orel.add', A))]
+        ooff = img.blob(L.encode(oname, cls, little, other[0]), align=8)
+        tags += [(DT[oname], addr(ooff)), (DT[oname + 'SZ'], osz), (DT[oname + 'ENT'], osz)]
     tags += [(DT[rname], addr(reloff)), (DT[rname + 'SZ'], 2 * rsz), (DT[rname + 'ENT'], rsz),
              (DT['JMPREL'], addr(jmpoff)), (DT['PLTRELSZ'], rsz), (DT['PLTREL'], DT[rname]), (free_tag, free_val), (DT['NULL'], 0)]
     after_null = [(DT['NEEDED'], 1), (DT['NULL'], 0)]
@@ -101,8 +109,9 @@ def _template(ctx, cfg):
         img.section('.dynsym', sh_type=11, sh_offset=symoff, sh_size=k * symsz, sh_entsize=symsz, sh_link=1, sh_addr=addr(symoff))     # 2
         img.section('.dynamic', sh_type=6, sh_offset=secdyn_off, sh_size=dyn_filesz, sh_entsize=dynsz, sh_link=1, sh_addr=addr(secdyn_off))  # 3
         img.add_shstrtab()
-    data = img.build()
-    exp = dict(tags=tags, sel=sel, svals=svals, rels=rels, jmp=jmp, rela=rela, k=k, free=(free_tag, free_val), V=V, addr=addr,
+    # e_phentsize may exceed the size of the structure (entries padded): the program header table is walked with that stride
+    data = img.build(phentsize=L.sizeof('PHDR', cls) + cfg['phslack']) if cfg.get('phslack') else img.build()
+    exp = dict(tags=tags, sel=sel, svals=svals, rels=rels, jmp=jmp, rela=rela, other=other, k=k, free=(free_tag, free_val), V=V, addr=addr,
                offs=dict(str=stroff, sym=symoff, rel=reloff, jmp=jmpoff, dyn=dynoff))
     return data, exp
 
@@ -141,8 +150,18 @@ def _check_dynamic(ctx, dyn, exp, label):
     # relocation tables
     tabs = dyn.get_relocation_tables()
     rname = 'RELA' if exp['rela'] else 'REL'
-    ctx.check_eq(label + '/reloc-tables', sorted(tabs), sorted([rname, 'JMPREL']))
-    if sorted(tabs) == sorted([rname, 'JMPREL']):
+    oname = 'REL' if exp['rela'] else 'RELA'
+    want_tabs = sorted([rname, 'JMPREL'] + ([oname] if exp.get('other') else []))
+    ctx.check_eq(label + '/reloc-tables', sorted(tabs), want_tabs)
+    if exp.get('other') and oname in tabs:
+        tab = tabs[oname]
+        ctx.check_eq(label + '/reloc/other-flavour/num', tab.num_relocations(), 1)
+        ctx.check_eq(label + '/reloc/other-flavour/flavour', tab.is_RELA(), not exp['rela'])
+        g = tab.get_relocation(0)
+        ctx.check_eq(label + '/reloc/other-flavour/r_offset', g['r_offset'], exp['other'][0]['r_offset'])
+        if not exp['rela']:
+            ctx.check_eq(label + '/reloc/other-flavour/r_addend', g['r_addend'], exp['other'][0]['r_addend'])
+    if sorted(tabs) == want_tabs:
         for key, want in ((rname, exp['rels']), ('JMPREL', exp['jmp'])):
             tab = tabs[key]
             ctx.check_eq(label + '/reloc/%s/num' % key, tab.num_relocations(), len(want))
@@ -243,6 +262,10 @@ def _instances(tier):
         for variant in ('sections', 'stripped', 'shifted'):
             # two PT_LOAD segments, the dynamic tables at the very start of the second one
             out.append(dict(elfclass=cls, little=little, variant=variant, hash='gnu' if cls == 64 else 'sysv', rela=(cls == 64), rpath=True, symstr=1, layout='split'))
+        out.append(dict(elfclass=cls, little=little, variant='stripped', hash='sysv', rela=(cls == 64), rpath=True, symstr=0, phslack=8))
+        out.append(dict(elfclass=cls, little=little, variant='stripped', hash='gnu', rela=True, rpath=True, symstr=0, both_flavours=True))
+        out.append(dict(elfclass=cls, little=little, variant='sections', hash='sysv', rela=False, rpath=True, symstr=0, both_flavours=True))
+        out.append(dict(elfclass=cls, little=little, variant='sections', hash='gnu', rela=(cls == 64), rpath=True, symstr=0, phslack=24, layout='split'))
     return out
 
 
